@@ -42,8 +42,11 @@ _SEEN = {}
 def stratified_keep(ctx, part, h, n, per_shape=1):
     """Seeded 1-in-n sample, plus the first few problems of every API spelling (the sequence of call sites that built
     the problem and which handle became the objective), so that rare spellings are never sampled away."""
-    key = ' ; '.join(progjudge.site(c, ctx.cur_heap) for c in ctx.cur_calls[:-1]) + ' | obj=h%s' % (
-        'base' if ctx.cur_calls[-1]['a'] <= ctx.nb else 'new')
+    def views(c):
+        # which base vector / view the call reads (x, x[::-1], x[1:3], x[::2] are one operand kind but different columns)
+        return ''.join('@h%d' % h for h in (c['a'], c['b']) if h and h <= ctx.nb and ctx.cur_heap[h - 1]['kind'] == 'V')
+    key = ' ; '.join(progjudge.site(c, ctx.cur_heap) + views(c) for c in ctx.cur_calls[:-1]) + ' | obj=h%s' % (
+        ctx.cur_calls[-1]['a'] if ctx.cur_calls[-1]['a'] <= ctx.nb else 'new')
     lp = (ctx.cur_preds[-1] or {}).get('lp') if isinstance(ctx.cur_preds[-1], dict) else None
     if lp:
         zero = lambda r: all(x[0] == 0 for x in r)
